@@ -629,6 +629,14 @@ func (k Keeper) WithdrawLimitAuctionBid(ctx sdk.Context, bidder string, Collater
 	}
 	auctionParams, _ := k.GetAuctionParams(ctx)
 
+	// only the deposited asset can be withdrawn, and never more than the bidder's own outstanding deposit
+	if amount.Denom != userLimitBid.DebtToken.Denom {
+		return types.ErrorUnknownDebtToken
+	}
+	if amount.Amount.GT(userLimitBid.DebtToken.Amount) {
+		return sdkerrors.Wrapf(sdkerrors.ErrInsufficientFunds, "withdraw amount %s exceeds the deposited amount %s", amount.Amount, userLimitBid.DebtToken.Amount)
+	}
+
 	if amount.Amount.Equal(userLimitBid.DebtToken.Amount) {
 		err := k.CancelLimitAuctionBid(ctx, bidder, DebtTokenId, CollateralTokenId, PremiumDiscount)
 		if err != nil {
